@@ -1283,3 +1283,38 @@ Proof.
   - intros [a [b [H1 H2]]]. apply C1. exists a, b. rewrite <- Hg. split; assumption.
   - intro Hn. rewrite Hg. apply C2. intros [a [b [H1 H2]]]. apply Hn. exists a, b. rewrite Hg. split; assumption.
 Qed.
+
+(* Resume on ANOTHER replica.  [opsA] is the history of the store the subscriber was connected to, [opsB] the history
+   of the store of the node that leads now (its own trimming rounds, its own re-opens).  The one thing the two must
+   share is stated as a hypothesis: the new leader's store logged, for the committed prefix, the same batches as the
+   old one ([h_log B = h_log A ++ nw]).  That is replica determinism (C06: every replica applies the same entries with
+   the same offsets and timestamps, hence stores the same batches, in whatever way it came into being) and is checked
+   on real controllers by harness notif, replicated scenarios (verdict notif:replica-batch-missing). *)
+Theorem resume_on_replica cfg opsA opsB from k fuel :
+  ops_user opsA -> ops_small opsA -> ops_user opsB -> ops_small opsB ->
+  let hA := hrun cfg opsA in
+  let hB := hrun cfg opsB in
+  (exists nw, h_log hB = h_log hA ++ nw) ->
+  h_lo hA <= from + 1 -> -1 <= from < TWO62 ->
+  let seen := firstn k (fst (dispatch (S (S fuel)) (h_st hA) from)) in
+  let l := last_offset seen from in
+  h_lo hB <= l + 1 ->
+  seen ++ fst (dispatch (S (S fuel)) (h_st hB) l) = above from (h_log hB).
+Proof.
+  intros HuA HsA HuB HsB. cbn zeta. intros [nw E] Hlo1 Hf Hlo2.
+  destruct (inv_run cfg opsA HuA HsA) as [I1 [N1 _]].
+  destruct (inv_run cfg opsB HuB HsB) as [I2 [N2 _]].
+  assert (B1 : h_next (hrun cfg opsA) <= TWO62) by (rewrite N1; destruct HsA as [Hs _]; lia).
+  assert (B2 : h_next (hrun cfg opsB) <= TWO62) by (rewrite N2; destruct HsB as [Hs _]; lia).
+  rewrite (dispatch_char cfg _ from fuel I1 B1 Hlo1 Hf) in *. cbn [fst] in *.
+  set (seen := firstn k (above from (h_log (hrun cfg opsA)))) in *.
+  assert (Hseen : Forall (fun b => 0 <= nb_offset b < TWO62) seen).
+  { apply Forall_forall. intros b Hb. apply in_firstn in Hb. apply filter_In in Hb. destruct Hb as [Hb _].
+    pose proof (i_range _ _ I1) as R. rewrite Forall_forall in R. specialize (R b Hb). lia. }
+  pose proof (last_offset_bound seen from TWO62 Hseen Hf) as Hl.
+  rewrite (dispatch_char cfg _ _ fuel I2 B2 Hlo2 Hl). cbn [fst].
+  assert (Esplit : above from (h_log (hrun cfg opsB)) =
+                   seen ++ (skipn k (above from (h_log (hrun cfg opsA))) ++ above from nw)).
+  { rewrite E, above_app, app_assoc. unfold seen. rewrite firstn_skipn. reflexivity. }
+  rewrite (above_split _ _ _ _ (i_sorted _ _ I2) Esplit). symmetry. exact Esplit.
+Qed.
